@@ -10,7 +10,11 @@ LEVEL_TEXT = ("For every tree, filter_, stop, maxlevel, options, indent and cust
               "maxlevel enumeration on small shapes, random larger ones, custom functions and to_file (fence).")
 LEVEL_NOTE = ("Full after the fix: commit for D2 (maxlevel=0). Trusted: Lean kernel, standard axioms; the mirror "
               "lean/Anytree/Model/Export.lean; id() modelled by an injective key; default identifiers compared up to renaming.")
-THEOREMS = []
+THEOREMS = [
+    ("Anytree.Props.C13.mermaid_lines_pure", "full"),
+    ("Anytree.Props.C13.mermaid_default_eq_pure", "full"),
+    ("Anytree.Props.C13.D2_witness", "witness"),
+]
 NOT_COVERED = []
 PREDICATE_SPEC = True
 RULE = ("as C12, for MermaidExporter: exhaustive small shapes x stop x filter x maxlevel, all start nodes of shapes up to 5/6 nodes, "
